@@ -1,6 +1,6 @@
 SPECIFICATION Spec
 CONSTANTS FRAG = 255
-  Runs = { "r_leaf", "r_ids6", "r_idsb3", "r_mid_a", "r_mid_b", "r_top", "r_top_h" }
+  Runs = { "r_leaf", "r_ids6", "r_idsb3", "r_mid_a", "r_mid_b", "r_top", "r_top_h", "r_mid_e", "r_top_e" }
 CONSTANT SchemaSource = "toy"
 INVARIANT StructRoundTrip
 INVARIANT Canonical
